@@ -2,15 +2,23 @@
 
 proof:   coq/Emit.v (generic, about the ABSTRACT emission pipeline: emit_id_invariant, emit_perm_invariant,
          glob_delete_invariant, glob_write_invariant, run_history_independent, run_preserves_foreign — all id assignments,
-         iteration orders, prior directory states), instantiated at strings in coq/props/C16.v together with the instance
-         obligations `sites_covered` / `plugins_owned` computed on the site table that lib/x_emit.py extracts from the current
-         plugins.
-tie:     x_emit (syntactic classification of every set / random id / directory listing by its consumer) + the history
-         stream on the REAL plugins: model lists {committed lsp.json, [lsp.json, extension.json] with keyword-named properties and
+         iteration orders, prior directory states; view_state/const_state/memo_history_independent — all earlier generations
+         of the same process), instantiated at strings in coq/props/C16.v together with the instance obligations
+         `no_module_state` / `sites_covered` / `plugins_owned` computed on the site table that lib/x_emit.py extracts from
+         the current generator (plugins, model.py, __main__.py).
+tie:     x_emit (syntactic classification of every set / random id / directory listing by its consumer, and — via
+         lib/emit_modstate.py — of every module-level name, class attribute, default value and functools cache by whether
+         any function can change it) + two streams on the REAL generator:
+         history stream: model lists {committed lsp.json, [lsp.json, extension.json] with keyword-named properties and
          digit-named messages; for testdata also a small standalone model and its extension} x {PYTHONHASHSEED 1, 2, 3, random} x
          {fresh directory, re-run into the same directory, run after the other model list in the same directory, run after
          hand-placed stale files matching the plugin's owned pattern}, byte comparison of whole output trees, plus a scan of
-         the output for uuid-shaped strings.
+         the output for uuid-shaped strings;
+         process stream: several generations inside ONE Python process (lib/c16_inproc.py, entry point generator.__main__.main)
+         — model A, then model B = A with every referenced enumeration's supportsCustomValues flipped and the first property
+         of every extends/mixins base structure made optional/required (same names, different answers to every by-name
+         lookup), then A again; B then A; and all plugins interleaved in one process — each output tree compared with the
+         tree a fresh process writes for the same model.
 partial: that each Python expression is an instance of its abstract class is not proved.
 """
 import concurrent.futures as cf
@@ -29,7 +37,13 @@ RULE = ("history stream: per plugin and model list — python/rust/dotnet on the
         "testdata on a small standalone model and its digit-named extension (quick) and on the full lists (thorough) — every combination of "
         "PYTHONHASHSEED in {1, 2, 3, random} and run history in {fresh directory, re-run into the same directory, run after the OTHER model "
         "list in the same directory, run after hand-placed stale files matching the owned pattern}; the whole output tree (path -> sha256) "
-        "must equal the reference tree of that (plugin, model list); distinct = distinct (plugin, model list, seed, history)")
+        "must equal the reference tree of that (plugin, model list); distinct = distinct (plugin, model list, seed, history). "
+        "process stream: per plugin (python/rust/dotnet on lsp.json, testdata on the small model; thorough: testdata on lsp.json too) the "
+        "generation sequences [A, B, A] and [B, A] inside one Python process, and one process running all plugins interleaved "
+        "[p1 A, p2 A, p3 A, p1 B, p2 B, p3 B, p1 A]; B = A with the supportsCustomValues flag of every referenced enumeration flipped and the "
+        "optional flag of the first property of every extends/mixins base flipped (nothing renamed); every step's output tree must equal the "
+        "tree written by a fresh process for the same (plugin, model), and fresh A and fresh B must differ (non-vacuity); "
+        "distinct = distinct (sequence, step)")
 SEEDS = ["1", "2", "random"]
 HISTS = ["fresh", "rerun", "after-other-model", "after-stale-files"]
 OTHER = {"committed": "extended", "extended": "committed", "small": "small-ext", "small-ext": "small"}
@@ -81,11 +95,46 @@ def write_models(base):
     aliases = [a for a in json.load(open(packaged))["typeAliases"] if a["name"] in ("LSPAny", "LSPObject", "LSPArray")]
     small = {"metaData": meta, "requests": [plain_req], "notifications": [], "structures": structs, "enumerations": enums, "typeAliases": aliases}
     small_ext = dict(small, requests=[plain_req, digit_req], notifications=[digit_not])
+    variant, edits = variant_of(json.load(open(packaged)))
+    small_variant, small_edits = variant_of(small)
     paths = {}
-    for name, doc in (("extension", ext), ("small", small), ("small-ext", small_ext)):
+    for name, doc in (("extension", ext), ("small", small), ("small-ext", small_ext), ("variant", variant), ("small-variant", small_variant)):
         paths[name] = os.path.join(base, name + ".json")
         json.dump(doc, open(paths[name], "w"))
-    return {"committed": None, "extended": [packaged, paths["extension"]], "small": [paths["small"]], "small-ext": [paths["small-ext"]]}
+    return {"committed": None, "extended": [packaged, paths["extension"]], "small": [paths["small"]], "small-ext": [paths["small-ext"]],
+            "variant": [paths["variant"]], "small-variant": [paths["small-variant"]], "_edits": {"variant": edits, "small-variant": small_edits}}
+
+
+def variant_of(doc):
+    """model B of the process stream: the same definitions under the same names, but a different answer to everything a plugin
+    looks up BY NAME: supportsCustomValues of every enumeration that is referenced, optional-ness of the first property of every
+    structure that is an extends/mixins base.  -> (document, list of edits)"""
+    doc = json.loads(json.dumps(doc))
+    refs = set()
+
+    def walk(t):
+        if isinstance(t, dict):
+            if t.get("kind") == "reference":
+                refs.add(t["name"])
+            for v in t.values():
+                walk(v)
+        elif isinstance(t, list):
+            for v in t:
+                walk(v)
+    for k in ("structures", "requests", "notifications", "typeAliases"):
+        walk(doc.get(k, []))
+    edits = []
+    for e in doc.get("enumerations", []):
+        if e["name"] in refs:
+            e["supportsCustomValues"] = not e.get("supportsCustomValues", False)
+            edits.append("enumeration %s: supportsCustomValues := %s" % (e["name"], e["supportsCustomValues"]))
+    bases = {x["name"] for st in doc.get("structures", []) for x in st.get("extends", []) + st.get("mixins", []) if x.get("kind") == "reference"}
+    for st in doc.get("structures", []):
+        if st["name"] in bases and st.get("properties"):
+            p = st["properties"][0]
+            p["optional"] = not p.get("optional", False)
+            edits.append("structure %s: property %s optional := %s" % (st["name"], p["name"], p["optional"]))
+    return doc, edits
 
 
 def gen(plugin, seed, out, model=None):
@@ -128,6 +177,95 @@ def combo(plugin, mlist, seed, hist, base, models):
         shutil.rmtree(d + "-tests", ignore_errors=True)
 
 
+VARIANT = {"committed": "variant", "small": "small-variant"}
+
+
+def process_sequences(tier):
+    """[(name, hash seed, [(plugin, model list), ...])]: generations performed in order inside one Python process"""
+    seqs = []
+    for p, a in (("python", "committed"), ("rust", "committed"), ("dotnet", "committed"), ("testdata", "small")):
+        b = VARIANT[a]
+        seqs.append(("%s:A,B,A" % p, "1", [(p, a), (p, b), (p, a)]))
+        seqs.append(("%s:B,A" % p, "2", [(p, b), (p, a)]))
+    three = ("python", "rust", "dotnet")
+    seqs.append(("interleaved", "3", [(p, "committed") for p in three] + [(p, "variant") for p in three] + [("python", "committed")]))
+    if tier == "thorough":
+        seqs.append(("testdata-full:A,B,A", "1", [("testdata", "committed"), ("testdata", "variant"), ("testdata", "committed")]))
+        seqs.append(("interleaved-reversed", "random", [(p, "variant") for p in reversed(three)] + [(p, "committed") for p in reversed(three)]))
+    return seqs
+
+
+def first_difference(fresh_dir, hist_dir, rel):
+    """first differing line of one file"""
+    try:
+        a = open(os.path.join(fresh_dir, rel), "rb").read().decode("utf-8", "replace").split("\n")
+    except OSError:
+        a = None
+    try:
+        b = open(os.path.join(hist_dir, rel), "rb").read().decode("utf-8", "replace").split("\n")
+    except OSError:
+        b = None
+    if a is None or b is None:
+        return {"file": rel, "fresh_process": "<file missing>" if a is None else "<present>", "after_history": "<file missing>" if b is None else "<present>"}
+    for i in range(max(len(a), len(b))):
+        x = a[i] if i < len(a) else "<end of file>"
+        y = b[i] if i < len(b) else "<end of file>"
+        if x != y:
+            return {"file": rel, "line": i + 1, "fresh_process": x[:300], "after_history": y[:300]}
+    return {"file": rel, "line": None}
+
+
+def process_sequence(name, seed, steps, base, models):
+    """run `steps` in one process, and each distinct (plugin, model list) in a fresh process; compare the trees.
+    -> {"name", "seed", "steps", "compared": n, "bad": [...], "error"}"""
+    root = os.path.join(base, "proc-" + re.sub(r"[^A-Za-z0-9]+", "_", name))
+    os.makedirs(root, exist_ok=True)
+    out = {"name": name, "seed": seed, "steps": [list(x) for x in steps], "compared": 0, "bad": [], "error": None}
+    try:
+        dirs = [os.path.join(root, "step%d-%s-%s" % (i, p, m)) for i, (p, m) in enumerate(steps)]
+        req = {"steps": [{"plugin": p, "models": models[m], "out": d} for (p, m), d in zip(steps, dirs)]}
+        env = V.repo_env({"PYTHONHASHSEED": seed})
+        env["PYTHONPATH"] = V.REPO
+        pr = subprocess.run([V.PY, "-B", os.path.join(V.VERIF, "lib", "c16_inproc.py")], input=json.dumps(req), cwd=V.REPO, env=env,
+                            capture_output=True, text=True, timeout=1800)
+        try:
+            rep = json.loads(pr.stdout.strip().split("\n")[-1])["steps"]
+        except (ValueError, IndexError, KeyError):
+            out["error"] = "in-process runner failed (rc %d): %s" % (pr.returncode, (pr.stdout + pr.stderr)[-600:])
+            return out
+        fresh = {}
+        for pm in sorted(set(steps)):
+            fd = os.path.join(root, "fresh-%s-%s" % pm)
+            rc, log = gen(pm[0], seed, fd, models[pm[1]])
+            fresh[pm] = (fd, None if rc == 0 else log)
+        ftrees = {pm: (tree(fd)[0] if err is None else None) for pm, (fd, err) in fresh.items()}
+        for p in sorted({p for p, _ in steps}):
+            ms = sorted({m for q, m in steps if q == p})
+            if len(ms) > 1 and all(ftrees[(p, m)] is not None for m in ms) and len({json.dumps(ftrees[(p, m)], sort_keys=True) for m in ms}) < len(ms):
+                out["bad"].append({"plugin": p, "what": "vacuous sequence: the model lists %s give the same output tree, nothing is tested" % ms})
+        for i, ((p, m), d) in enumerate(zip(steps, dirs)):
+            here = {"step": i, "plugin": p, "models": m, "earlier_in_process": [list(x) for x in steps[:i]]}
+            if fresh[(p, m)][1] is not None:
+                out["bad"].append(dict(here, what="generator failed in a fresh process", detail=fresh[(p, m)][1][-400:]))
+                continue
+            if not rep[i]["ok"]:
+                out["bad"].append(dict(here, what="generator failed after earlier generations in the same process (succeeds in a fresh process)", detail=rep[i]["error"]))
+                continue
+            t, _ = tree(d)
+            out["compared"] += 1
+            if t != ftrees[(p, m)]:
+                df = diff_trees(ftrees[(p, m)], t)
+                files = (df["content_differs"] + df["only_in_reference"] + df["only_in_this_run"])[:3]
+                out["bad"].append(dict(here, what="output of this generation differs from what a fresh process writes for the same model",
+                                       diff=df, first_differences=[first_difference(fresh[(p, m)][0], d, f) for f in files]))
+        return out
+    except subprocess.TimeoutExpired:
+        out["error"] = "timeout"
+        return out
+    finally:
+        shutil.rmtree(root, ignore_errors=True)
+
+
 def jobs_for(tier, extra_seeds=()):
     """(plugin, model list, seed, history) combinations of a tier"""
     jobs = []
@@ -149,18 +287,22 @@ def diff_trees(a, b):
             "content_differs": sorted(k for k in a if k in b and a[k] != b[k])[:10]}
 
 
-def run_stream(jobs, workers=10):
-    """-> {(plugin, model list, seed, hist): (tree, leaks, err)}"""
+def run_stream(jobs, workers=10, seqs=()):
+    """-> ({(plugin, model list, seed, hist): (tree, leaks, err, first)}, [result of process_sequence], edits of the variant models)"""
     res = {}
     with V.scratch("verif-c16-") as base:
         models = write_models(base)
         # heavy jobs first
         order = sorted(jobs, key=lambda j: (-(j[0] == "testdata" and j[1] in ("committed", "extended")), -(j[0] == "dotnet"), j))
         with cf.ThreadPoolExecutor(workers) as ex:
+            heavy = [q for q in seqs if any(p == "testdata" and m in ("committed", "variant") for p, m in q[2])]
+            sfuts = [(q, ex.submit(process_sequence, q[0], q[1], q[2], base, models)) for q in heavy + [q for q in seqs if q not in heavy]]
             futs = {j: ex.submit(combo, j[0], j[1], j[2], j[3], base, models) for j in order}
             for j in jobs:
                 res[j] = futs[j].result()
-    return res
+            done = {q[0]: f.result() for q, f in sfuts}
+        pres = [done[q[0]] for q in seqs]
+    return res, pres, models["_edits"]
 
 
 def judge(res):
@@ -187,12 +329,22 @@ def judge(res):
 
 def run(chk):
     chk.trusted = V.STD_TRUSTED + [
-        "translator lib/x_emit.py: syntactic consumer classification of every set / random id / directory listing in generator/plugins (not a proof that the expression is an instance of its class)",
-        "the abstract pipeline LSP.Emit (TypeData as insertion-ordered association list, set consumers, directory as a function) — tied to the plugins only by x_emit and the history stream",
-        "CPython dicts iterate in insertion order; sorted() is a function of the multiset of its elements under a total order",
+        "translator lib/x_emit.py: syntactic consumer classification of every set / random id / directory listing in generator/plugins and generator/*.py "
+        "(not a proof that the expression is an instance of its class)",
+        "translator lib/emit_modstate.py: which module-level names / class attributes / default values / functools caches of generator/ exist, which of them "
+        "hold a possibly mutable value, and whether any function body can rebind or mutate them (directly, through `global`, through a module alias, "
+        "through a local alias, a parameter, a loop variable or an element); fail-closed: an escape it cannot follow is reported as SModState. Loggers, "
+        "compiled patterns and paths count as immutable handles; state inside library modules and setattr/globals() tricks outside functions are not "
+        "analysed (the process stream is the check for those)",
+        "the abstract pipeline LSP.Emit (TypeData as insertion-ordered association list, set consumers, directory as a function, a process as a fold of "
+        "generations over the module state, functools caches as association tables) — tied to the generator only by x_emit and the two streams",
+        "CPython dicts iterate in insertion order; sorted() is a function of the multiset of its elements under a total order; arguments of a cached "
+        "function that compare equal are interchangeable for it",
     ]
     chk.assumptions = ["LABEL partial: theorems are about the abstract pipeline; the instance link is syntactic + differential",
-                       "the owned part of a directory is what matches the plugin's cleanup pattern or its fixed file names"]
+                       "the owned part of a directory is what matches the plugin's cleanup pattern or its fixed file names",
+                       "module state = what hangs off the module objects of generator/ (names, class attributes, defaults, functools caches); a name bound to a "
+                       "mutable value that no function changes is constant after import (import-time code may build it freely)"]
     gen_v = os.path.join(V.GEN, "EmitData.v")
     gen_j = os.path.join(V.GEN, "emit.json")
     broken = []
@@ -226,17 +378,23 @@ def run(chk):
                     if n == bad:
                         reached = False
                     chk.obligation(n, reached and n != bad, "" if reached and n != bad else ("coqc failed here" if n == bad else "not reached"))
-                exposed = [s for s in info["sites"] if s["class"] == "SExposed"]
+                exposed = [s for s in info["sites"] if s["class"] in ("SExposed", "SModState")]
                 notown = [pl for pl in info["plugins"] if not ((pl["cleanup_first"] or pl["fixed_names"]) and pl["writes_owned"])]
-                broken.append(("proof", bad or "C16.v", {"exposed_sites": exposed, "plugins_without_cleanup_or_fixed_names": notown, "coq": out[-400:]}))
+                broken.append(("proof", bad or "C16.v", {"exposed_sites": [x for x in exposed if x["class"] == "SExposed"],
+                                                          "module_state_changed_by_a_function": [x for x in exposed if x["class"] == "SModState"],
+                                                          "plugins_without_cleanup_or_fixed_names": notown, "coq": out[-400:]}))
         else:
             broken.append(("translator", "x_emit", (p.stdout + p.stderr)[-800:]))
     if info:
         chk.extra["site_classes"] = {k: sum(1 for s in info["sites"] if s["class"] == k) for k in sorted({s["class"] for s in info["sites"]})}
         chk.extra["plugins"] = [{k: pl[k] for k in ("name", "cleanup_first", "fixed_names", "writes_owned", "patterns", "written")} for pl in info["plugins"]]
+        chk.extra["module_state"] = {"sites": [{k: x[k] for k in ("file", "line", "what", "kind", "class")} for x in info["sites"] if x["kind"] in ("modstate", "memo", "default")],
+                                     "immutable_names_never_rebound": info.get("modstate", {}).get("immutable_module_names"),
+                                     "modules": len(info.get("modstate", {}).get("modules", []))}
 
     jobs = jobs_for(chk.tier, ["4", "5"] if broken else [])      # an obligation broke: look harder for a real difference
-    res = run_stream(jobs, workers=10 if chk.tier == "quick" else 6)
+    seqs = process_sequences(chk.tier)
+    res, pres, edits = run_stream(jobs, workers=10 if chk.tier == "quick" else 6, seqs=seqs)
     for j, (t, leaks, err, _first) in res.items():
         chk.count(j, nontrivial=t is not None)
     bad = judge(res)
@@ -244,11 +402,26 @@ def run(chk):
     chk.obligation("history-stream:real-plugins-byte-identical", not bad,
                    "%d runs-with-history (%s), %d differing" % (ntrees, ", ".join("%s/%s: %d" % (p, m, sum(1 for j in jobs if j[:2] == (p, m)))
                                                                                  for p, m in sorted({j[:2] for j in jobs})), len(bad)))
+    pbad = []
+    for r in pres:
+        for i in range(len(r["steps"])):
+            chk.count(("process", r["name"], i), nontrivial=r["error"] is None)
+        if r["error"]:
+            pbad.append({"sequence": r["name"], "seed": r["seed"], "steps": r["steps"], "what": r["error"]})
+        pbad += [dict(b, sequence=r["name"], seed=r["seed"], steps=r["steps"]) for b in r["bad"]]
+    ncomp = sum(r["compared"] for r in pres)
+    chk.obligation("process-stream:nth-generation-equals-fresh-process", not pbad,
+                   "%d generations inside %d processes (%s) compared with fresh-process output, %d differing; model B = %d edits (%s, ...)"
+                   % (ncomp, len(pres), ", ".join(r["name"] for r in pres), len(pbad), len(edits["variant"]), "; ".join(edits["variant"][:2])))
     for j in [("dotnet", "committed", "2", "after-other-model"), ("python", "extended", "3", "fresh"), ("testdata", "small", "random", "after-other-model")]:
         if j in res and res[j][0] is not None:
             chk.sample({"plugin": j[0], "models": j[1], "seed": j[2], "history": j[3], "files": len(res[j][0]),
                         "tree_digest": hashlib.sha1(json.dumps(res[j][0], sort_keys=True).encode()).hexdigest()[:12]})
-    chk.extra["traces_validated_against_impl"] = ntrees
+    for r in pres[:1] + pres[-1:]:
+        chk.sample({"process_sequence": r["name"], "seed": r["seed"], "steps": r["steps"], "generations_compared_with_fresh_process": r["compared"]})
+    chk.extra["traces_validated_against_impl"] = ntrees + ncomp
+    chk.extra["process_stream"] = {"sequences": [{"name": r["name"], "seed": r["seed"], "steps": r["steps"], "compared": r["compared"]} for r in pres],
+                                   "variant_edits": {k: len(v) for k, v in edits.items()}, "variant_edits_sample": edits["variant"][:5] + edits["small-variant"][:2]}
     seeds = sorted({j[2] for j in jobs})
 
     how = "./check C16 --replay <this file>"
@@ -257,9 +430,19 @@ def run(chk):
         chk.violation({"property": "C16", "kind": "history", "input": {"plugin": b["plugin"], "models": b["models"], "seed": b["seed"], "history": b["history"]},
                        "expected": "byte-identical output tree for every hash seed and run history", "observed_impl": b,
                        "all_differing": [(x["plugin"], x["models"], x["seed"], x["history"]) for x in bad][:20], "broken": [x[:2] for x in broken], "how_to_replay": how})
-    elif broken:
+    if pbad:
+        b = pbad[0]
+        chk.violation({"property": "C16", "kind": "process-history",
+                       "input": {"sequence": b["sequence"], "seed": b["seed"], "steps": b["steps"],
+                                 "model_A": "committed = generator/lsp.json; small = the standalone model of lib/props/c16.py write_models",
+                                 "model_B": "variant_of(A) in lib/props/c16.py: " + "; ".join(edits["variant" if "committed" in str(b["steps"]) else "small-variant"][:4]) + "; ..."},
+                       "expected": "each generation of the sequence, performed in ONE Python process through generator.__main__.main, writes the tree a fresh process writes for the same model",
+                       "observed_impl": b, "all_differing": [(x["sequence"], x.get("step"), x.get("plugin"), x.get("models")) for x in pbad][:20],
+                       "broken": [x[:2] for x in broken], "how_to_replay": how})
+    if broken and not bad and not pbad:
         chk.violation({"property": "C16", "kind": "obligation no longer checks", "broken": [{"what": a, "name": b, "detail": c} for a, b, c in broken],
-                       "searched": "%d real plugin runs over seeds %s and histories %s: all output trees byte-identical" % (ntrees, seeds, HISTS)},
+                       "searched": "%d real plugin runs over seeds %s and histories %s: all output trees byte-identical; %d generations inside %d multi-generation "
+                                   "processes: all equal to fresh-process output" % (ntrees, seeds, HISTS, ncomp, len(pres))},
                       no_input=True)
 
 
@@ -269,8 +452,15 @@ def replay(path):
     if not inp:
         print("no concrete input recorded:", json.dumps(r.get("broken"))[:2000])
         return 1
+    if r.get("kind") == "process-history":
+        _, pres, _ = run_stream([], workers=2, seqs=[(inp["sequence"], inp["seed"], [tuple(x) for x in inp["steps"]])])
+        if pres[0]["error"] or pres[0]["bad"]:
+            print("still fails:", json.dumps(pres[0]["bad"][0] if pres[0]["bad"] else pres[0]["error"])[:1500])
+            return 1
+        print("no longer fails")
+        return 0
     m = inp.get("models", "committed")
-    res = run_stream(sorted({(inp["plugin"], m, "1", "fresh"), (inp["plugin"], m, inp["seed"], inp["history"])}), workers=2)
+    res, _, _ = run_stream(sorted({(inp["plugin"], m, "1", "fresh"), (inp["plugin"], m, inp["seed"], inp["history"])}), workers=2)
     bad = judge(res)
     if bad:
         print("still fails:", json.dumps(bad[0])[:1500])
